@@ -10,10 +10,10 @@ git apply $S/patch.diff || { echo "PATCH DOES NOT APPLY"; exit 2; }
 cmake --build _build > /tmp/seed-build.log 2>&1 || { echo "BUILD FAILS"; git checkout -q -- .; exit 2; }
 T=$(ctest --test-dir _build -j8 2>&1 | grep "tests passed")
 echo "with change: $T"
-( sh $S/run_demo.sh > /tmp/seed-demo-with.log 2>&1 ); RW=$?
+( bash $S/run_demo.sh > /tmp/seed-demo-with.log 2>&1 ); RW=$?
 git checkout -q -- .
 cmake --build _build > /tmp/seed-build.log 2>&1
-( sh $S/run_demo.sh > /tmp/seed-demo-without.log 2>&1 ); RO=$?
+( bash $S/run_demo.sh > /tmp/seed-demo-without.log 2>&1 ); RO=$?
 echo "demo exit with change: $RW   without: $RO"
 mkdir -p /verif/seeded/$ID
 cp $S/patch.diff $S/README.txt /verif/seeded/$ID/ 2>/dev/null
